@@ -3,6 +3,7 @@
 package config
 
 import (
+	"time"
 	"encoding/json"
 	"fmt"
 	"math/rand"
@@ -224,6 +225,13 @@ func c44Tree(c *c44Case) map[string]interface{} {
 	put([]string{cs("Ethereum")}, cs("KeyFile"), "/nonexistent/c44-keyfile")
 	put([]string{cs("Storage")}, cs("Dir"), "/nonexistent/c44-storage")
 	put([]string{cs("Network")}, cs("Port"), 3919)
+	// further explicitly set values next to the ten judged ones: whatever is
+	// defaulted around them, they must come out as written
+	put([]string{cs("Bitcoin"), cs("Electrum")}, cs("ConnectTimeout"), "13s")
+	put([]string{cs("Bitcoin"), cs("Electrum")}, cs("ConnectRetryTimeout"), "1m17s")
+	put([]string{cs("Bitcoin"), cs("Electrum")}, cs("RequestTimeout"), "19s")
+	put([]string{cs("Bitcoin"), cs("Electrum")}, cs("RequestRetryTimeout"), "2m3s")
+	put([]string{cs("Bitcoin"), cs("Electrum")}, cs("KeepAliveInterval"), "4m7s")
 	for i := 0; i < c44NumItems; i++ {
 		if c.Source[i]&c44File == 0 {
 			continue
@@ -502,6 +510,29 @@ func c44Check(r *verifkit.Run, dir string, seq int, c *c44Case, defaults map[str
 		r.Violation("networks:not-selected", fmt.Sprintf("selection %q resolved to the %s networks", c.Selection, net), desc, nil)
 	}
 	stats["net_"+net]++
+
+	// ---- explicitly set bystander values of the file are kept as written
+	if needFile {
+		by := []struct {
+			name string
+			got  interface{}
+			want interface{}
+		}{
+			{"Ethereum.URL", cfg.Ethereum.URL, "ws://127.0.0.1:8546"},
+			{"Storage.Dir", cfg.Storage.Dir, "/nonexistent/c44-storage"},
+			{"Bitcoin.Electrum.ConnectTimeout", cfg.Bitcoin.Electrum.ConnectTimeout, 13 * time.Second},
+			{"Bitcoin.Electrum.ConnectRetryTimeout", cfg.Bitcoin.Electrum.ConnectRetryTimeout, 77 * time.Second},
+			{"Bitcoin.Electrum.RequestTimeout", cfg.Bitcoin.Electrum.RequestTimeout, 19 * time.Second},
+			{"Bitcoin.Electrum.RequestRetryTimeout", cfg.Bitcoin.Electrum.RequestRetryTimeout, 123 * time.Second},
+			{"Bitcoin.Electrum.KeepAliveInterval", cfg.Bitcoin.Electrum.KeepAliveInterval, 247 * time.Second},
+		}
+		for _, b := range by {
+			stats["bystander_values_checked"]++
+			if b.got != b.want {
+				r.Violation("explicit-bystander-lost:"+b.name, fmt.Sprintf("%s was set explicitly in the file to %v and came out as %v", b.name, b.want, b.got), desc, nil)
+			}
+		}
+	}
 
 	// ---- the ten values
 	sawExplicit, sawDefault := false, false
